@@ -98,6 +98,11 @@ CHECKS = {
         'note': 'trusted: the planted positions and an own call-syntax scanner; cells mixing lower- and upper-case calls and fragments spanning newlines are not planted; exact key format not asserted',
         'technique': 'Hypothesis structured generation vs planted-positions oracle',
     },
+    'C05': {
+        'text': 'Hypothesis seed formulas over the whole supported grammar (operators, every function shape of Appendix A incl. INDEX area lists / area expressions, omitted ROUNDUP digit) expanded into families: whitespace variants (spaces / tabs / newlines after =, between any two tokens, after the last), separator variants (, / ; per separator), 1-2 token-level mutations (delete / insert / duplicate / swap / replace / append / prepend, unbalanced brackets, doubled operators, extra / dropped arguments, adjacent operands, a complete formula followed by a tail), 1-2 character-level mutations (incl. doubled / unbalanced quotes); every function x argument counts 0..max+2 x argument kinds; random token soups.  Each text goes through Parser (entry-point cell) and, when accepted, is evaluated.  Oracle: own lexer + own context-free recogniser of the supported grammar (outside => E2PyclParserException; never a foreign exception), the reference evaluator on the whole text for accepted texts in its domain, and equality of outcome class and value across variants that lex to the same token list',
+        'note': 'trusted: the grammar transcription and lexer in vf/props/c05.py, vf/ref/formula.py; a text inside the grammar that the ordered-choice parser rejects with the parser exception is counted, not asserted; texts whose lexing the transcription does not pin down are only checked for foreign exceptions',
+        'technique': 'Hypothesis grammar-based generation + token/character mutation fuzzing vs independent recogniser (differential accept/reject), reference evaluator and metamorphic whitespace / separator relations',
+    },
 }
 ALL = ['C%02d' % i for i in range(1, 21)]
 for p in ALL:
